@@ -12,7 +12,7 @@ REPO = os.environ.get("VERIF_REPO", "/repo")
 BUILD = os.environ.get("VERIF_BUILD", os.path.join(VERIF, "build"))
 JOBS = int(os.environ.get("VERIF_JOBS", str(os.cpu_count() or 4)))
 
-ASAN = "-fsanitize=address,undefined -fno-sanitize-recover=undefined -fno-omit-frame-pointer"
+ASAN = "-fsanitize=address,undefined -fno-sanitize=vptr -fno-sanitize-recover=undefined -fno-omit-frame-pointer"
 TSAN = "-fsanitize=thread -fno-omit-frame-pointer"
 
 # cfg -> (cmake build type, extra cxx flags, cmake options)
